@@ -178,6 +178,7 @@ class FrameTrack:
     def __init__(self, touch='nv_touch', lvalue_hooks=(), rows_fields=(), effect_hooks=()):
         self.touch = touch
         self.effect_hooks = list(effect_hooks)   # expression hooks of the spec that print a WRITE (rows_slice_hook): never erased
+        self.hoisted = set()                     # ids of effect-hook nodes whose write was printed in front of their statement
         # data members modelled row-wise (`struct nv_rows`: the footprint of ONE ghost row): `m.slice(range)` on them is
         # printed by rows_slice_hook as a write of the ghost row iff it lies in the range; any other possibly-mutating
         # mention writes the ghost row unconditionally
@@ -308,6 +309,14 @@ class FrameTrack:
             return out
         if n.get('kind') == 'LambdaExpr':
             return out          # lambdas are extracted as functions of their own (the spec maps the call that takes them)
+        for h in self.effect_hooks:
+            # a write the spec models by a hook (row range / grid cell of a member): printed in front of the statement, so
+            # that it takes place even where the expression around it is erased (order is irrelevant for a frame)
+            t = h(P, n)
+            if t is not None:
+                if t not in out:
+                    out.append(t)
+                self.hoisted.add(id(n))
         if self.mention(P, n):
             ctx = self.context(parents)
             if ctx == 'mutable' and self.const_view(n) and not self.assigned_to(n, parents):
@@ -336,7 +345,7 @@ class FrameTrack:
         mutating mentions of erased objects inside it are charged by the statement hook like everywhere else"""
         P.check_pure(n, f'argument not translated by the mapping of {key}')
         for x in astload.walk(n):
-            if any(h(P, x) is not None for h in self.effect_hooks):
+            if id(x) not in self.hoisted and any(h(P, x) is not None for h in self.effect_hooks):
                 raise Unsupported(f'a write the spec models (hook) sits inside an expression that is erased / not translated ({key})')
             if x.get('kind') in CALL_KINDS and not self.accessor(P, x) and self.effectful(self.mapping_of(P, x)):
                 raise Unsupported(f'a call the spec maps ({cxx2c.unwrap(x["inner"][0]).get("referencedDecl", {}).get("name") or x["inner"][0].get("name")}) '
@@ -345,7 +354,8 @@ class FrameTrack:
     def sliced(self, n, parents):
         """the mention is the object of `<member>.slice(..)` (printed by rows_slice_hook)"""
         ps = [p for p in parents if p.get('kind') not in TRANSPARENT and p.get('kind') != 'ParenExpr']
-        return len(ps) >= 2 and ps[-1].get('kind') == 'MemberExpr' and ps[-1].get('name') == 'slice' and ps[-2].get('kind') == 'CXXMemberCallExpr'
+        return len(ps) >= 2 and ps[-1].get('kind') == 'MemberExpr' and ps[-1].get('name') in ('slice', 'tensor') and ps[-2].get('kind') == 'CXXMemberCallExpr' \
+            and id(ps[-2]) in self.hoisted
 
     def touches(self, stmts, p):
         return ''.join(f'{p}{a};\n' for a in stmts)
@@ -413,6 +423,17 @@ class FrameTrack:
             for x in init:
                 self.collect(P, x, [v], w)
             ty = v.get('type', {}).get('qualType', '').rstrip()
+            if v.get('kind') == 'DecompositionDecl' and init and self.is_cell(P, init[0].get('type')):
+                # structured binding of an erased object (pair / tuple of erased values): every binding is an erased value
+                # of its own (a mutable binding was charged to the object above: the access path is created here)
+                e = P.expr(init[0])
+                out += self.touches(w, p)
+                if e != 'nv_opaque_value()':
+                    out += f'{p}(void){e};\n' + P.after(p)
+                for b in [x for x in v.get('inner', []) if x.get('kind') == 'BindingDecl']:
+                    out += f'{p}struct nv_opaque {b["name"]};\n'
+                P.note('frame: structured binding of an erased object')
+                continue
             if v.get('kind') == 'VarDecl' and init and ty.endswith('&') and not _is_const_q(ty):
                 u = unwrap(init[0])
                 # a non-const reference bound to a mapped lvalue call (`auto& acc = accs[tnum]`): alias the real object
@@ -488,6 +509,40 @@ def rows_slice_hook(rows_fields):
             return f'nv_rows_slice({P.addr(u)}, {P.expr(args[0])}, {P.expr(args[1])})'
         raise Unsupported('slice with %d arguments on a row-wise modelled member' % len(args))
     return h
+
+
+def grid_cell_hook(grid_fields, fn='nv_grid_cell'):
+    """`m_values.tensor(trial, fold, ..)` (two or more indices) on a non-const data member of `this` modelled as a
+    (trial, fold) grid (`struct nv_grid`: the footprint of ONE ghost cell): nv_grid_cell(&self->m_values, trial, fold) writes
+    the ghost cell iff (trial, fold) is the ghost pair"""
+    def h(P, n):
+        if n.get('kind') != 'CXXMemberCallExpr':
+            return None
+        me = n['inner'][0]
+        if me.get('kind') != 'MemberExpr' or me.get('name') != 'tensor' or len(n['inner']) < 3:
+            return None
+        obj = me['inner'][0]
+        u = unwrap(obj)
+        if u.get('kind') != 'MemberExpr' or u.get('name') not in grid_fields:
+            return None
+        if _is_const_q(obj.get('type', {}).get('qualType', '')) or _is_const_q(u.get('type', {}).get('qualType', '')):
+            return None
+        P.note('grid: <member>.tensor(trial, fold, ..) -> ghost-cell write')
+        return f'{fn}({P.addr(u)}, {P.expr(n["inner"][1])}, {P.expr(n["inner"][2])})'
+    return h
+
+
+def uf_int_hook(P, n):
+    """integer `*`, `/`, `%` as uninterpreted functions (congruence only: sound for every interpretation, the machine
+    one included).  Slot indices `trial * folds + fold` are then compared as terms; nothing is bit-blasted."""
+    if n.get('kind') != 'BinaryOperator' or n.get('opcode') not in ('*', '/', '%'):
+        return None
+    q = strip_cv(qual(n.get('type', {})))
+    if cxx2c.SCALARS.get(q) not in ('int64_t', 'uint64_t'):
+        return None
+    f = {'*': 'NV_IMUL', '/': 'NV_IDIV', '%': 'NV_IMOD'}[n['opcode']]
+    a, b = n['inner']
+    return f'(({cxx2c.SCALARS[q]}){f}((int64_t)({P.expr(a)}), (int64_t)({P.expr(b)})))'
 
 
 def ref_member_hook(ref_fields):
